@@ -9,7 +9,13 @@ THEOREMS = {"C12": ["strip_path_spec", "strip_path_basename", "unquote_quote", "
                     "unified_header_scan_quoted", "unified_header_scan_blanks", "stripped_dir", "git_header_scan_names",
                     "git_header_scan_pN", "stripped_ab_zero", "stripped_ab_default", "git_header_scan_quoted",
                     "ext_name_spec", "git_rename_plain", "git_rename_quoted", "git_rename_scan_next",
-                    "right_file_patched", "right_file_patched_p1", "right_file_patched_blanks", "right_file_patched_git"],
+                    "right_file_patched", "right_file_patched_p1", "right_file_patched_blanks", "right_file_patched_git",
+                    "rewritten_keep", "rewritten_no_crlf", "section_pure_rename", "git_rename_scan_trailing",
+                    "pure_rename_program", "rename_prog_runs", "moved_tree", "permitted_same_dir",
+                    "pure_rename_end_to_end_gen", "pure_rename_end_to_end", "pure_rename_end_to_end_quoted",
+                    "pure_rename_same_dir", "pure_rename_never_lost_gen", "pure_rename_never_lost",
+                    "pure_rename_fault_at_any_operation", "pure_rename_reverse", "pure_rename_reverse_quoted",
+                    "pure_rename_reverse_never_lost", "pure_rename_then_next", "rename_prog_safe"],
             "C13": ["consume_printed", "parse_unified_header", "unified_roundtrip", "rejects_loop", "rejects_skipped",
                     "context_roundtrip", "context_roundtrip_list", "normalise_sides", "normalise_idem", "context_roundtrip_normal",
                     "reject_context_file", "wf_hunk_c_unified", "roundtrip_both_forms", "wf_hunk_cb_ok", "tail_ok_cb_ok",
